@@ -67,19 +67,22 @@ def extract(repo):
     asyncio.set_event_loop(loop)
     try:
         # ---- id counter: ids seen in the messages of 3 singles, a batch, 1 single
-        conn = jr.JSONRPCConnection(jr.JSONRPCv2)
         ids = []
-        for _ in range(3):
+        try:
+            conn = jr.JSONRPCConnection(jr.JSONRPCv2)
+            for _ in range(3):
+                msg, _f = conn.send_request(jr.Request('m', []))
+                ids.append(json.loads(msg)['id'])
+            msg, _f = conn.send_batch(jr.Batch([jr.Request('a', []), jr.Notification('n', []),
+                                                jr.Request('b', [])]))
+            ids += [p['id'] for p in json.loads(msg) if 'id' in p]
             msg, _f = conn.send_request(jr.Request('m', []))
             ids.append(json.loads(msg)['id'])
-        msg, _f = conn.send_batch(jr.Batch([jr.Request('a', []), jr.Notification('n', []),
-                                            jr.Request('b', [])]))
-        ids += [p['id'] for p in json.loads(msg) if 'id' in p]
-        msg, _f = conn.send_request(jr.Request('m', []))
-        ids.append(json.loads(msg)['id'])
-        diffs = {b - a for a, b in zip(ids, ids[1:])} if all(
-            isinstance(i, int) and not isinstance(i, bool) for i in ids) else {0}
-        facts['id_start'] = ids[0] if isinstance(ids[0], int) and ids[0] >= 0 else 0
+        except Exception:   # noqa: no usable id sequence on this tree
+            ids = []
+        good = len(ids) == 6 and all(isinstance(i, int) and not isinstance(i, bool) for i in ids)
+        diffs = {b - a for a, b in zip(ids, ids[1:])} if good else {0}
+        facts['id_start'] = ids[0] if good and ids[0] >= 0 else 0
         facts['id_step'] = diffs.pop() if len(diffs) == 1 and min(diffs) > 0 else 0
         facts['ids_seen'] = ids
         # ---- which id values _message_id admits (in a response)
@@ -103,14 +106,23 @@ def extract(repo):
             raw = json.dumps({'result': 5, 'error': None, 'id': idval}).encode()
             name = _exc_name(lambda: c.receive_message(raw))
             return name, fut.done()
-        name, done = v1_probe(True)
+        try:
+            name, done = v1_probe(True)
+        except Exception as e:   # noqa
+            name, done = type(e).__name__, True
         facts['conn_rejects_bool'] = (name == 'ProtocolError' and not done)
-        name, _done = v1_probe([1])
+        try:
+            name, _done = v1_probe([1])
+        except Exception as e:   # noqa
+            name = type(e).__name__
         facts['unhashable_exc'] = name
 
         # ---- unsortable response batch
         c = jr.JSONRPCConnection(jr.JSONRPCv2)
-        c.send_batch(jr.Batch([jr.Request('a', []), jr.Request('b', [])]))
+        try:
+            c.send_batch(jr.Batch([jr.Request('a', []), jr.Request('b', [])]))
+        except Exception:   # noqa
+            pass
         raw = json.dumps([{'jsonrpc': '2.0', 'id': 0, 'result': 1},
                           {'jsonrpc': '2.0', 'id': 'x', 'result': 2}]).encode()
         facts['unsortable_exc'] = _exc_name(lambda: c.receive_message(raw))
